@@ -151,8 +151,12 @@ func getKeystoreFromJson(keysJson []byte) (*Keystore, error) {
 // NOTE: this func will leave the masterKeyPriv derived
 func (a *AddrManager) checkPassword(passphrase []byte) error {
 	if a.unlocked {
-		saltedPassphrase := append(a.privPassphraseSalt[:],
-			passphrase...)
+		// build the salted passphrase in a buffer of its own: appending an empty
+		// passphrase to privPassphraseSalt[:] returns the salt array itself, which
+		// zero.Bytes below would then wipe
+		saltedPassphrase := make([]byte, 0, len(a.privPassphraseSalt)+len(passphrase))
+		saltedPassphrase = append(saltedPassphrase, a.privPassphraseSalt[:]...)
+		saltedPassphrase = append(saltedPassphrase, passphrase...)
 		hashedPassphrase := sha512.Sum512(saltedPassphrase)
 		zero.Bytes(saltedPassphrase)
 		if !bytes.Equal(hashedPassphrase[:], a.hashedPrivPassphrase[:]) {
